@@ -439,6 +439,8 @@ fn lie(r: &mut Rng, l: &mut Layout) {
                         let mut x = vec![0x01, 0x99, 7, 0];
                         x.extend_from_slice(&[*r.pick(&[1u8, 2, 3]), 0, 0x41, 0x45, *r.pick(&[1u8, 2, 3, 4])]);
                         x.extend_from_slice(&inner.to_le_bytes());
+                        // the streaming reader parses the LOCAL extra field
+                        if r.chance(1, 2) { e.local_extra = x.clone(); }
                         e.central_extra = x;
                         if r.chance(1, 2) { e.flags |= 1; }
                         if r.chance(1, 2) { e.method = 99; }
@@ -510,6 +512,28 @@ impl Stream for ReadStream {
             lie(&mut r, &mut l);
             let b = mkzip::build(&l);
             push(&mut g, "liar", &b.bytes, None, r.chance(1, 3));
+        }
+        // (c2) AES extra records in every combination, through BOTH readers (the streaming reader parses the
+        // local extra field, the seekable one the central extra field)
+        for _ in 0..80 * scale {
+            idx += 1;
+            let mut r = super::rng_for(seed, "read.aesx", idx);
+            let content = rand_content(&mut r);
+            let mut e = Entry::stored(b"aes-extra", &content);
+            let inner = *r.pick(&[0u16, 0, 8, 12, 93, 99, 1]);
+            let mut x = vec![0x01, 0x99, 7, 0];
+            x.extend_from_slice(&[*r.pick(&[1u8, 2, 2, 3]), 0, 0x41, if r.chance(9, 10) { 0x45 } else { 0x46 }, *r.pick(&[1u8, 2, 3, 3, 4])]);
+            x.extend_from_slice(&inner.to_le_bytes());
+            if r.chance(1, 8) { x[2] = 6; x.pop(); }
+            if r.chance(3, 4) { e.local_extra = x.clone(); }
+            if r.chance(3, 4) { e.central_extra = x.clone(); }
+            if r.chance(1, 3) { e.flags |= 1; }
+            if r.chance(1, 2) { e.method = 99; }
+            if inner != 0 && inner != 99 && inner != 1 && r.chance(1, 2) { e.data = compress(inner, &content); }
+            let mut l = Layout::new(vec![e, Entry::stored(b"plain", b"second entry")]);
+            if r.chance(1, 4) { l.entries.swap(0, 1); }
+            let b = mkzip::build(&l);
+            push(&mut g, "aes-extra", &b.bytes, None, true);
         }
         // (d) truncations and substitutions of small seeds
         for s in 0..(if thorough { 12 } else { 3 }) {
